@@ -11,9 +11,10 @@ import walk_common as wc  # noqa: E402
 
 LEVEL = "proof"
 PROPS = "Walk/Props_C10.v"
-COQ_FILES = wc.COQ_FILES + ["Walk/Invariant.v", "Walk/Faults.v", "Walk/FaultProofs.v", "Walk/LimitProofs.v", "Walk/Props_C10.v"]
+COQ_FILES = wc.COQ_FILES + ["Walk/Invariant.v", "Walk/Faults.v", "Walk/FaultProofs.v", "Walk/ConfineProofs.v",
+                            "Walk/ContainProofs.v", "Walk/LimitProofs.v", "Walk/SubdirProofs.v", "Walk/PathsProofs.v", "Walk/Props_C10.v"]
 THEOREMS = ["inode_bound", "inode_fail_iff", "size_bound", "cancel_no_new_file", "cancel_inside_extract_same_file",
-            "cancel_reports_failure", "limits_never_panic"]
+            "cancel_reports_failure", "limits_never_panic", "size_bound_per_root"]
 
 META = {
     "technique": "Coq proof (trace invariants preserved by every handleFile call, lifted through the whole engine; budgeted execution "
@@ -21,7 +22,7 @@ META = {
                  "around the number of visits a tree needs and every cancellation point; image half: checks/part_C10_image.py",
     "level_text": "Theorems (all trees, roots, faults, options): never more AfterInodeVisited calls than MaxInodes (inode_bound); the "
                   "scan fails with the limit error exactly when the tree needs more visits than the limit (inode_fail_iff); no file "
-                  "larger than MaxFileSize reaches Extract (size_bound); once the context is cancelled by the k-th visit no Extract "
+                  "larger than MaxFileSize reaches Extract (size_bound; with several roots judged in the file's own root: size_bound_per_root); once the context is cancelled by the k-th visit no Extract "
                   "starts on any later file (cancel_no_new_file), cancelled inside an Extract only the current file's remaining "
                   "extractors still run (cancel_inside_extract_same_file); cancellation is reported as failure exactly when visits "
                   "remained (cancel_reports_failure). Run never panics for any trees, faults, limits, cancellation points, requested paths "
